@@ -83,6 +83,10 @@ def established_by_pid(port, pids):
     return res
 
 
+class E2EError(RuntimeError):
+    """the rig itself could not do its part (server did not start, ...): inconclusive, never a verdict"""
+
+
 class Server:
     def __init__(self, backend="sql", workers=1, overrides=None, mode="gunicorn", storage_opts=None,
                  scratch=None):
@@ -98,6 +102,9 @@ class Server:
         cfg = json.loads(json.dumps(env.BASE_CONFIG))
         cfg["gunicorn"] = {"bind": "127.0.0.1:%d" % self.port, "workers": workers, "loglevel": "warning",
                            "graceful_timeout": 5, "timeout": 120}
+        if mode == "uvicorn":
+            # run_with_uvicorn hands every key of this section to uvicorn.Config
+            cfg["gunicorn"] = {"bind": "127.0.0.1:%d" % self.port, "loglevel": "warning"}
         cfg["logging"] = {
             "version": 1,
             "disable_existing_loggers": False,
@@ -140,7 +147,7 @@ class Server:
         p = subprocess.run([PY, "-m", "vf.e2e_launch", self.conf, "roles", json.dumps(roles)], cwd=self.dir,
                            env=self._env(), stdout=subprocess.PIPE, stderr=subprocess.STDOUT, timeout=120)
         if p.returncode != 0:
-            raise RuntimeError("set_roles failed: %s" % p.stdout.decode("utf-8", "replace")[-800:])
+            raise E2EError("set_roles failed: %s" % p.stdout.decode("utf-8", "replace")[-800:])
 
     def start(self, wait=40.0):
         e = self._env()
@@ -155,7 +162,7 @@ class Server:
         t0 = time.time()
         while time.time() - t0 < wait:
             if self.proc.poll() is not None:
-                raise RuntimeError("server exited rc=%s: %s" % (self.proc.returncode, self.log_tail()))
+                raise E2EError("server exited rc=%s: %s" % (self.proc.returncode, self.log_tail()))
             try:
                 s = socket.create_connection(("127.0.0.1", self.port), timeout=0.5)
                 s.close()
@@ -165,7 +172,7 @@ class Server:
             except OSError:
                 pass
             time.sleep(0.1)
-        raise RuntimeError("server did not come up: %s" % self.log_tail())
+        raise E2EError("server did not come up: %s" % self.log_tail())
 
     def worker_pids(self):
         if self.proc is None:
